@@ -87,13 +87,18 @@ class Pulse(Event):
         self.sources = [sources[_] for _ in range(len(proportions)) if proportions[_] != 0]
         self.proportions= [proportions[_] for _ in range(len(proportions)) if proportions[_] != 0]
 
+import copy
 import demes
 def output(Nref=None, deme_mapping=None, generation_time=None):
     """
     Note: If no Nref is specified, then migration rates are scaled to lie within 0 to 1, which is required by the demes specification.
     """
-    global cache
+    # Work on copies of the logged events, so that the names assigned (and mapped)
+    # while building the graph are not stored back into the log. Otherwise a second
+    # call with a different deme_mapping would see the first call's names.
+    return _output([copy.copy(e) for e in cache], Nref, deme_mapping, generation_time)
 
+def _output(cache, Nref, deme_mapping, generation_time):
     # Proceed from present to past to get e end_times
     cache[-1].end_time = 0 # Last e ends at present time
     for younger, older in zip(cache[::-1][:-1], cache[::-1][1:]):
